@@ -50,7 +50,8 @@ func Run(c *core.Ctx) {
 
 	// ---- R1 guard table
 	guarded := []string{"rerr", "werr", "store", "rwait", "wwait"}
-	n, perField := ring.GuardTable(c, "R1.guard", pkg, "pipe", "mu", guarded)
+	n, perField, immutable := ring.GuardTable(c, "R1.guard", pkg, "pipe", "mu", guarded)
+	ring.GuardOnTraces(c, "R1.trace", pkg, "pipe", "mu", guarded, immutable)
 	for _, f := range guarded {
 		if perField[f] < 2 {
 			c.Undecidedf("instances", "R1.guard", token.NoPos, "only %d guarded accesses to pipe.%s found (%d in total): every guarded field is read and written by the pipe's operations", perField[f], f, n)
@@ -585,7 +586,7 @@ func closeRule(c *core.Ctx, method, errField, storeClose, defErr, rw, ww string)
 		c.Undecidedf("R3.close", method+"/sets-"+errField, fn.Decl.Pos(), "field %s not found", errField)
 		return
 	}
-	var def, first, stores, always, closes verdict
+	var def, first, stores, always, closes, published verdict
 	sig := map[string]*verdict{rw: {}, ww: {}}
 	anyStore, unknownVal := false, ""
 	for _, t := range res.Traces {
@@ -619,6 +620,18 @@ func closeRule(c *core.Ctx, method, errField, storeClose, defErr, rw, ww string)
 			v.add(t, fn.Decl.Pos(), t.First(func(e *ring.Event) bool { return ring.IsCondOp(e, cond, "Signal", "Broadcast") }) != nil)
 		}
 		closes.add(t, fn.Decl.Pos(), t.First(func(e *ring.Event) bool { return ring.IsFieldCall(e, "store", storeClose) }) != nil)
+		// the close becomes visible under the lock, with a wake-up of each side in the same critical section or later
+		for _, cond := range []string{rw, ww} {
+			cond := cond
+			v := ring.PublishedUnderLock(t, res.Recv, "mu",
+				func(e *ring.Event) bool {
+					return ring.IsStoreTo(e, errField) || ring.IsFieldCall(e, "store", storeClose)
+				},
+				func(e *ring.Event) bool { return ring.IsCondOp(e, cond, "Signal", "Broadcast") })
+			if v >= 0 {
+				published.add(t, fn.Decl.Pos(), v == 1)
+			}
+		}
 	}
 	if !anyStore {
 		c.Failf("R3.close", method+"/sets-"+errField, fn.Decl.Pos(), "%s never sets %s: the other side is not told about the close", method, errField)
@@ -637,6 +650,7 @@ func closeRule(c *core.Ctx, method, errField, storeClose, defErr, rw, ww string)
 		}
 	}
 	closes.report(c, "R3.close", method+"/closes-store", fn.Decl.Pos(), fmt.Sprintf("%s calls store.%s() on every path", method, storeClose))
+	published.report(c, "R3.close", method+"/published-under-lock", fn.Decl.Pos(), fmt.Sprintf("%s records the close error and closes the store with mu held, and signals each side in the same critical section or later: a sleeper woken earlier could re-check, find the pipe open and sleep for ever", method))
 }
 
 // extraWaits: a sync.Cond.Wait that is not one of the events of readSome /
